@@ -381,7 +381,9 @@ func checkC20(c *mc.Ctx) {
 	if c.Thorough() {
 		depth = 8
 	}
-	for _, st := range StandardStreams(c.Seed) {
+	streams := c19Streams(c.Seed)
+	streams = append(streams, &Stream{Name: "big-payloads", Bytes: BigPayloadStream(c.Seed)})
+	for _, st := range streams {
 		for _, auto := range []bool{false, true} {
 			mk := func() *astits.Demuxer {
 				if auto {
